@@ -25,6 +25,7 @@ type c12Case struct {
 	Seed   int    `json:"seed,omitempty"`
 	Size   int    `json:"size,omitempty"`
 	Max    int    `json:"max,omitempty"`
+	First  bool   `json:"first,omitempty"`
 }
 
 type c12Obs struct {
@@ -60,7 +61,8 @@ func (p *c12Prop) Gen(r *Rng, i int, tier string) interface{} {
 	case 6, 7:
 		return &c12Case{Kind: "hostile", Seed: int(r.U64() % 1000000), V5: r.Bool()}
 	case 8:
-		return &c12Case{Kind: "oversize", Size: 100*1024*1024 + r.Intn(100*1024*1024), Max: 1024 * (1 + r.Intn(64)), V5: r.Bool()}
+		// First: the oversized header is the very first packet of the connection (a CONNECT): the limit binds before the broker knows who is there
+		return &c12Case{Kind: "oversize", Size: 100*1024*1024 + r.Intn(100*1024*1024), Max: 1024 * (1 + r.Intn(64)), V5: r.Bool(), First: r.Chance(40)}
 	case 9:
 		if i%20 == 19 {
 			// Pkts[0] / Pkts[1]: protocol version of the publisher / of the subscriber (4, 5); Pkts[2]: subscription identifier?
@@ -294,15 +296,20 @@ func (p *c12Prop) Run(ci interface{}) interface{} {
 		conn.SetClean(true)
 		_ = conn.SetClientID([]byte("big"))
 		raw, _ := mqttp.Encode(conn)
-		_ = cl.SendRaw(raw)
-		if _, err := cl.Recv(5 * time.Second); err != nil {
-			obs.Err = "no connack"
-			return obs
+		if !c.First {
+			_ = cl.SendRaw(raw)
+			if _, err := cl.Recv(5 * time.Second); err != nil {
+				obs.Err = "no connack"
+				return obs
+			}
 		}
 		var m0, m1 runtime.MemStats
 		runtime.GC()
 		runtime.ReadMemStats(&m0)
 		hdr := []byte{0x30}
+		if c.First {
+			hdr[0] = 0x10
+		}
 		n := c.Size
 		for {
 			d := byte(n % 128)
